@@ -272,6 +272,8 @@ func c16Cases(tier string) ([]chainCase, map[string]int) {
 		{"app-stake", tx("app_stake", "P2", "value", "1000000")},
 		{"param-change", tx("gov_param", "G", "from", "G", "key", "pos/MaxValidators", "value", `"1"`)},
 		{"send-with-memo", func() TxSpec { t := tx("send", "A2", "to", "A1", "amount", "3"); t.Memo = "hello"; return t }()},
+		// passes the ante handler (the fee is charged) and fails in the message handler: it changed state once
+		{"send-more-than-balance", tx("send", "A2", "to", "A1", "amount", "99999999")},
 	}
 	firstHeight := env.BaseHeight + int64(env.Warmup) + 1
 	for _, x := range txs {
@@ -325,8 +327,11 @@ func c16Cases(tier string) ([]chainCase, map[string]int) {
 				}
 				cases = append(cases, chainCase{Name: fmt.Sprintf("%s/%s/gap%d", x.name, vn, gap), Class: class, Env: env, Ref: ref, Subject: sub, Want: []string{"balances"},
 					Oracle: func(r, s JobResult) (string, string) {
-						if r.Blocks[0].Txs[0].Code != 0 {
+						if r.Blocks[0].Txs[0].Code != 0 && x.name != "send-more-than-balance" {
 							return "", "" // the first submission did not take effect: nothing to replay (precision note C16)
+						}
+						if x.name == "send-more-than-balance" && (r.Blocks[0].Txs[0].Code == 0 || r.Blocks[0].Txs[0].Codespace == "auth") {
+							return "", "" // not the intended shape (must fail after the fee was charged)
 						}
 						if lastHash(r) != lastHash(s) {
 							tr := lastTx(s)
@@ -359,8 +364,8 @@ func init() {
 	register(&Check{ID: "C16", QuickBud: 110 * time.Second, ThorBud: 20 * time.Minute,
 		Run: func(c *ev.Ctx) {
 			cases, stats := c16Cases(c.Tier)
-			c.Rule = "6 signed transactions x every re-encoding produced by a wire-level generator (non-minimal varints for the length prefix, every tag, every length and every varint value; unknown fields of 5 wire shapes appended/prepended at top level, inside the Any, the message, the signature and the fee; repeated scalar; reversed/rotated/swapped field order; explicit empty optional; map entries in another order) that the real decoder maps to identical sign bytes, signature, key and fee, plus the identical bytes x resubmission in the same block / next block / later: the replica that received the copy must end with the same app hash as the replica that did not. Non-trivial = distinct (transaction, variant, gap)"
-			c.Assume("a resubmission counts only after a first submission that took effect (result code 0)")
+			c.Rule = "7 signed transactions (one of them charged its fee and then fails in the message handler) x every re-encoding produced by a wire-level generator (non-minimal varints for the length prefix, every tag, every length and every varint value; unknown fields of 5 wire shapes appended/prepended at top level, inside the Any, the message, the signature and the fee; repeated scalar; reversed/rotated/swapped field order; explicit empty optional; map entries in another order) that the real decoder maps to identical sign bytes, signature, key and fee, plus the identical bytes x resubmission in the same block / next block / later: the replica that received the copy must end with the same app hash as the replica that did not. Non-trivial = distinct (transaction, variant, gap)"
+			c.Assume("a resubmission counts only after a first submission that changed state (result code 0, or fee charged and message failed)")
 			c.Assume("current rules (all features active); before the REDUP activation height identical bytes in the same block were not rejected - historical, not explored")
 			for k, v := range stats {
 				c.OutcomeN(k, int64(v))
